@@ -45,9 +45,19 @@ def looper(n, pause, out):
 
 def generate(seed, tier):
     r = random.Random(seed)
+    s = _generate(r)
+    if r.random() < 0.08:
+        # a poll answer that arrives while shutdown is draining deliveries which outlast the drain's patience: whatever
+        # that answer sets in motion must not take effect after shutdown has returned
+        s.update(kind="snapshot", poll_in_flight=r.choice((3.0, 15.0)), poll_errors=False,
+                 pending=["stuck", "stuck"] + [r.choice(("ok", "error"))] * r.randrange(0, 2))
+    return s
+
+
+def _generate(r):
     return {"pre_sys": r.random() < 0.4, "pre_thread": r.random() < 0.4, "no_trace": r.random() < 0.3,
             "start_twice": r.random() < 0.3, "shutdown_twice": r.random() < 0.3,
-            "hits_before": r.randrange(0, 4), "pending": [r.choice(("ok", "error", "slow")) for _ in range(r.randrange(0, 4))],
+            "hits_before": r.randrange(0, 4), "pending": [r.choice(("ok", "error", "slow", "stuck")) for _ in range(r.randrange(0, 4))],
             "poll_errors": r.random() < 0.3, "plugin_shutdown_raises": sorted(r.sample((0, 1, 2), r.choice((0, 0, 1, 2)))),
             "bg_threads": r.choice((0, 0, 1, 2)), "kind": r.choice(("snapshot", "log", "metric", "span")),
             "poll_in_flight": r.choice((None, None, 3.0, 15.0, 25.0)),
@@ -116,6 +126,8 @@ def execute(s, ch):
                     return {"kind": "error"}
                 if kinds[idx] == "slow":
                     return {"delay": 8.0}
+                if kinds[idx] == "stuck":
+                    return {"delay": 45.0}     # far longer than the drain is prepared to wait for its deliveries
             return None
         w.service.send_faults = send_faults
 
@@ -198,12 +210,15 @@ def execute(s, ch):
         except BaseException as e:  # noqa
             viol.append(V("shutdown-raised:%s" % type(e).__name__, "%r (plugins raising in shutdown %s, pending %s)" % (
                 e, s["plugin_shutdown_raises"], s["pending"])))
+        shutdown_done_ns = k.now_ns
         check_hooks("after-shutdown", False)
         alive_now = [t.name for t in k.threads if t.name == "Tracepoint Long Poll" and k.alive(t)]
         if alive_now:
             viol.append(V("shutdown-returned-while-poll-thread-alive", "poll in flight for %ss; threads %s" % (
                 s.get("poll_in_flight"), alive_now)))
+        mark_sends = len(w.service.send_attempts)
         hash_at_shutdown = w.config.tracepoints.current_hash
+        installed_at_shutdown = [id(t_) for t_ in w.handler._tp_config]
         if w.deep.started:
             viol.append(V("still-started-after-shutdown", ""))
         if s["shutdown_twice"]:
@@ -228,7 +243,6 @@ def execute(s, ch):
         mark_p = len(w.pushed)
         mark_s = len(w.sink.calls)
         mark_polls = len(w.service.polls)
-        mark_sends = len(w.service.send_attempts)
         g["looper"](3, lambda: None, [])
         k.sleep(35)
         k.settle()
@@ -241,8 +255,21 @@ def execute(s, ch):
                           "shutdown returned" % (len(w.pushed) - mark_p, [c[2] for c in acts][:4], threads)))
         if len(w.service.polls) > mark_polls:
             viol.append(V("polls-after-shutdown", "%d polls" % (len(w.service.polls) - mark_polls)))
+        if len(w.service.send_attempts) > mark_sends and "stuck" not in s["pending"]:
+            # (the drain waits a bounded time per delivery: what is queued behind a delivery that outlasts it may still
+            # go out later - not demanded either way)
+            # shutdown drains delivery: a send that only STARTS after shutdown returned was accepted but not waited for
+            late = w.service.send_attempts[mark_sends:]
+            viol.append(V("sends-after-shutdown", "%d sends started after shutdown had returned (first at +%.1fs by %s); "
+                          "pending at shutdown %s, %d background threads" % (
+                              len(late), (late[0][0] - shutdown_done_ns) / 1e9, late[0][1], s["pending"], s["bg_threads"])))
         if w.config.tracepoints.current_hash != hash_at_shutdown:
             viol.append(V("configuration-changed-after-shutdown", "hash %r -> %r" % (hash_at_shutdown, w.config.tracepoints.current_hash)))
+        if [id(t_) for t_ in w.handler._tp_config] != installed_at_shutdown:
+            # an update accepted while shutdown was draining, applied after it had returned
+            viol.append(V("configuration-changed-after-shutdown", "installed tracepoints replaced after shutdown had "
+                          "returned (%d -> %d); poll in flight %ss, pending %s" % (
+                              len(installed_at_shutdown), len(w.handler._tp_config), s.get("poll_in_flight"), s["pending"])))
         alive = [t.name for t in k.threads if t.name == "Tracepoint Long Poll" and k.alive(t)]
         if alive:
             viol.append(V("timer-alive-after-shutdown", str(alive)))
